@@ -35,6 +35,41 @@ class VClock:
     def __call__(self):
         return self.t
 
+    def module_shim(self):
+        """Stands in for the `time` module global of a library module: every clock the library may legitimately read
+        (wall clock, monotonic, perf_counter, their _ns forms) follows the virtual clock - the monotonic family with a
+        different origin, as on a real machine, so that mixing the two families shows - and sleeping advances it."""
+        return _TimeShim(self)
+
+
+class _TimeShim:
+    MONO_ORIGIN = 999_000.25        # monotonic() = virtual now - this
+
+    def __init__(self, clock):
+        self._clock = clock
+
+    def time(self):
+        return self._clock.t
+
+    def time_ns(self):
+        return int(self._clock.t * 1_000_000_000)
+
+    def monotonic(self):
+        return self._clock.t - self.MONO_ORIGIN
+
+    def monotonic_ns(self):
+        return int((self._clock.t - self.MONO_ORIGIN) * 1_000_000_000)
+
+    perf_counter = monotonic
+    perf_counter_ns = monotonic_ns
+
+    def sleep(self, d):
+        self._clock.advance(d)
+
+    def __getattr__(self, name):
+        import time as _real
+        return getattr(_real, name)
+
 
 class Item:
     __slots__ = ("value", "flags", "exp", "cas")
